@@ -66,6 +66,7 @@ type Case struct {
 	S      *Structured `json:"structured,omitempty"`
 	Ended  bool        `json:"h2_end_stream_on_headers,omitempty"`
 	H3     *H3Extra    `json:"h3,omitempty"`
+	Expect string      `json:"expect,omitempty"`                          // what the generator knows the outcome must be: error | response | response-clean
 	Pre    int         `json:"exchanges_before_on_same_client,omitempty"` // rounds[0..Pre) are served to plain GETs first, the last round to the observed call
 	Model  bool        `json:"model_compared"`                            // emit an H1Case for the Coq model
 	Flood  int64       `json:"flood_heap_bound,omitempty"`
@@ -489,6 +490,18 @@ func genCases(seed uint64, quick bool) []*Case {
 					o.DumpClient = true
 				}
 				c := &Case{Kind: "h1", Method: "GET", Shape: fmt.Sprintf("limit-%d%+d-pre%d", lim, d, pre), Opts: o, Model: true}
+				// the head is well-formed: within the budget it must be accepted; beyond it (plus, behind an
+				// informational response, whatever the read buffer may already hold) it must be refused
+				buf := 4096
+				if o.ReadBuf > 0 {
+					buf = o.ReadBuf
+				}
+				switch {
+				case d <= 0:
+					c.Expect = "response-clean"
+				case pre == 0 || d > buf:
+					c.Expect = "error"
+				}
 				c.Rounds = []Round{{Data: []byte(sb.String()), End: "fin"}}
 				add(c)
 			}
@@ -521,6 +534,11 @@ func genCases(seed uint64, quick bool) []*Case {
 		for _, pre := range []int{1, 2} {
 			for _, d := range []int{-30, 0, 1, 40, 300} {
 				c := &Case{Kind: "h1", Method: "GET", Shape: fmt.Sprintf("seq%d-limit-%d%+d", pre, lim, d), Model: true, Pre: pre}
+				if d <= 0 {
+					c.Expect = "response-clean"
+				} else {
+					c.Expect = "error" // the budget holds for every response of a connection, not only the first
+				}
 				c.Opts = plainOpts
 				c.Opts.MaxHeader = lim
 				for j := 0; j < pre; j++ {
@@ -554,9 +572,9 @@ func genCases(seed uint64, quick bool) []*Case {
 	// the call must return at once (nothing to wait for)
 	for _, h := range []struct{ meth, status string }{{"GET", "304 Not Modified"}, {"GET", "204 No Content"}, {"HEAD", "200 OK"}, {"GET", "304 Not Modified"}} {
 		o, on := randOpts(r)
-		o.Digest, o.Download, o.Callback, o.NoAutoRead = false, "", false, false
+		o.Digest, o.Download, o.Callback, o.NoAutoRead, o.Result = false, "", false, false, false // (an empty body does not unmarshal)
 		o.TimeoutMs = 1500
-		c := &Case{Kind: "h1", Method: h.meth, Shape: "nobody-chunked-open:" + h.status[:3] + "+" + on, Opts: o}
+		c := &Case{Kind: "h1", Method: h.meth, Shape: "nobody-chunked-open:" + h.status[:3] + "+" + on, Opts: o, Expect: "response-clean"}
 		c.Rounds = []Round{{Data: []byte("HTTP/1.1 " + h.status + "\r\nTransfer-Encoding: chunked\r\nEtag: \"x\"\r\n\r\n"), End: "hold", Hold: 1200}}
 		add(c)
 	}
